@@ -1,7 +1,12 @@
 #!/bin/bash
-# Build the whole Lean library from files on disk (offline) after regenerating the tables from /repo.
+# Build the Lean library from files on disk (offline) after regenerating the tables from /repo.
+# Only the modules of properties claimed in MANIFEST.json are built (plus what they import).
 cd "$(dirname "$0")" || exit 2
 export PYTHONDONTWRITEBYTECODE=1 PYTHONPATH="/repo${PYTHONPATH:+:$PYTHONPATH}" DELPH_IN_PYDELPHIN_VERIF=1
 /venv/bin/python -B -m harness.common.tables --all || exit 2
-cd lean && lake build 2>&1 | grep -v '^trace' | tail -40
+TARGETS=$(/venv/bin/python -B -c "
+import json
+m=json.load(open('MANIFEST.json'))
+print(' '.join('Verif.%s.Props Verif.%s.Driver' % (c['property_id'], c['property_id']) for c in m['checks']))")
+cd lean && lake build $TARGETS 2>&1 | grep -v '^trace' | tail -40
 exit ${PIPESTATUS[0]}
